@@ -42,9 +42,13 @@ def build(spec):
     if spec.get("grid"):
         grid = {"corr": None, "corr_coeff": None, "loss_coeff": None, "axial_positions": list(spec["grid"]["z"]), "solidity": None}
         grid.update({k: v for k, v in spec["grid"].items() if k != "z"})
-    rr = region_rodded.RoddedRegion("c12", g["n_ring"], g["P"], g["D"], g["H"], g["Dw"], 0.1 * g["D"], list(g["ftf"]), flow,
+    # via_clone: the region every Reactor assembly really uses is a clone of the type template with its own flow rate
+    rr = region_rodded.RoddedRegion("c12", g["n_ring"], g["P"], g["D"], g["H"], g["Dw"], 0.1 * g["D"], list(g["ftf"]),
+                                    flow * 1.7 if spec.get("via_clone") else flow,
                                     cool, duct, None, spec["ff"], spec["fs"], spec["mix"], "DB", None, grid, None, None,
                                     "clockwise", 1.0, False, 0.0, False)
+    if spec.get("via_clone"):
+        rr = rr.clone(new_flowrate=flow)
     rr.z = list(spec.get("z", [0.0, 1.0]))
     rr._init_static_correlated_params(700.0)
     rr._update_coolant_int_params(700.0)
@@ -66,6 +70,7 @@ def run(spec):
     o = Outcome()
     fam_fs = spec["fs"] in ("CTD", "UCTD")
     o.classes.update({"ff": spec["ff"], "fs": spec["fs"], "mix": spec["mix"], "regime": spec.get("regime", "?"),
+                      "via_clone": bool(spec.get("via_clone")),
                       "grid": (spec.get("grid") or {}).get("corr") or ("loss_coeff" if spec.get("grid") else "none")})
     fallback = [0]
     try:
@@ -118,6 +123,21 @@ def run(spec):
         c = rr.corr_constants["fs"]
         CfL, CfT = np.array(c["Cf_sc"]["laminar"]), np.array(c["Cf_sc"]["turbulent"])
         ReL, ReT = c["Re_bnds"]
+        # the constants the split works with are those of the friction correlation of its OWN family, whatever friction
+        # correlation the assembly uses (differential against the family's friction module)
+        from dassh.correlations import friction_ctd, friction_uctd
+        fmod = friction_uctd if spec["fs"] == "UCTD" else friction_ctd
+        try:
+            cref = drive.guarded("family_constants", fmod.calculate_subchannel_friction_factor_const, rr)
+            bref = drive.guarded("family_constants", fmod.calculate_Re_bounds, rr)
+            for reg_ in ("laminar", "turbulent"):
+                dcf = float(np.max(np.abs(np.array(c["Cf_sc"][reg_], float) / np.array(cref[reg_], float) - 1.0)))
+                o.check(dcf <= 1e-12, "split_constants_not_of_own_family", "%s Cf_sc differ by %.3e (ff=%s fs=%s, via_clone=%s)"
+                        % (reg_, dcf, spec["ff"], spec["fs"], bool(spec.get("via_clone"))))
+            dbn = float(np.max(np.abs(np.array(c["Re_bnds"], float) / np.array(bref, float) - 1.0)))
+            o.check(dbn <= 1e-12, "split_regime_bounds_not_of_own_family", "%.3e" % dbn)
+        except (drive.Crashed, drive.Rejected):
+            pass
         De = np.array(rr.params["de"])
         Deb = rr.bundle_params["de"]
         Re_i = Re * x * De / Deb
@@ -204,7 +224,8 @@ def enumerated():
             for mix in MX:
                 for rname, Re in res.items():
                     for gr in grids:
-                        out.append({"ff": ff, "fs": fs, "mix": mix, "Re": Re, "regime": rname, "geom": g, "grid": gr})
+                        out.append({"ff": ff, "fs": fs, "mix": mix, "Re": Re, "regime": rname, "geom": g, "grid": gr,
+                                    "via_clone": len(out) % 2 == 1 or (ff != fs and fs in ("CTD", "UCTD") and ff in ("CTD", "UCTD"))})
     return out
 
 
@@ -231,7 +252,9 @@ def ct_cases(draw):
         lo = res["at_ReL" if fam == "CTD" else "at_ReL_uctd"]
         Re = draw(gen.logfl(lo, res["at_ReT"]))
     spec = {"ff": fam, "fs": fam, "mix": draw(st.sampled_from([fam, "MIT", "KC-BARE"])), "Re": Re, "geom": g, "_part": "ct",
-            "regime": "drawn"}
+            "regime": "drawn", "via_clone": draw(st.booleans())}
+    if draw(st.integers(0, 3)) == 0:
+        spec["ff"] = "UCTD" if fam == "CTD" else "CTD"      # friction of the other family member: the split keeps its own constants
     if g["Dw"] == 0.0:
         spec["mix"] = draw(st.sampled_from([fam, "KC-BARE"]))
     if draw(st.integers(0, 2)) == 0:
